@@ -71,7 +71,7 @@ class Contract:
     """
 
     def __init__(self, fn, name, pre, post, assigns=(), ghosts=(), mode="S", replaces=(), loops=None, unwind=None,
-                 kind="unbounded", extra_flags=(), objbits=None, note="", prop=None, timeout=None, inline_only=False, known_ok=None):
+                 kind="unbounded", extra_flags=(), objbits=None, note="", prop=None, props=None, timeout=None):
         self.fn = fn
         self.name = name
         self.pre = list(pre)
@@ -86,7 +86,7 @@ class Contract:
         self.extra_flags = list(extra_flags)
         self.objbits = objbits
         self.note = note
-        self.prop = prop
+        self.props = set(props) if props else ({prop} if prop else set())
         self.timeout = timeout
 
     @property
@@ -356,8 +356,7 @@ def run_contract(c, tier="quick", keep=False):
             if tier == "thorough":
                 tmo *= 3
             try:
-                pr = subprocess.run(["bash", "-c", "ulimit -v 12000000; exec timeout %d cbmc %s --json-ui --trace %s" % (tmo, " ".join(flags + bflags), os.path.join(wd, "b.gb"))],
-                                    stdout=subprocess.PIPE, stderr=subprocess.PIPE, text=True, errors="replace")
+                pr = _cbmc(tmo, flags + bflags, wd, trace=False)
             except Exception as e:  # pragma: no cover
                 last = str(e)
                 continue
@@ -376,7 +375,19 @@ def run_contract(c, tier="quick", keep=False):
                     continue
                 r.backend = name
                 r.props = res
-                r.raw = js
+                if any(p.get("status") == "FAILURE" and "must FAIL" not in p.get("description", "") and not p.get("description", "").startswith("pointer relation:") and not _is_canary_post(c, p) for p in res):
+                    # re-run once with traces for counterexample extraction (statuses stay those of the first run)
+                    pr2 = _cbmc(tmo * 2, flags + bflags, wd, trace=True)
+                    if pr2.returncode in (0, 10):
+                        try:
+                            for item in json.loads(pr2.stdout):
+                                if isinstance(item, dict) and "result" in item:
+                                    tr = {p.get("property"): p.get("trace") for p in item["result"] if p.get("trace")}
+                                    for p in r.props:
+                                        if p.get("property") in tr:
+                                            p["trace"] = tr[p.get("property")]
+                        except Exception:
+                            pass
                 break
             last = "%s: exit %d %s" % (name, pr.returncode, (pr.stdout[-300:] + pr.stderr[-300:]).replace("\n", " "))
         else:
@@ -395,6 +406,16 @@ def run_contract(c, tier="quick", keep=False):
     return r
 
 
+def _cbmc(tmo, flags, wd, trace):
+    return subprocess.run(["bash", "-c", "ulimit -v 12000000; exec timeout %d cbmc %s --json-ui %s %s" % (tmo, " ".join(flags), "--trace" if trace else "", os.path.join(wd, "b.gb"))],
+                          stdout=subprocess.PIPE, stderr=subprocess.PIPE, text=True, errors="replace")
+
+
+def _is_canary_post(c, p):
+    m = re.search(r"\.postcondition\.(\d+)$", p.get("property", ""))
+    return bool(m) and p.get("property", "").startswith(c.fn.mangled + ".") and int(m.group(1)) - 1 >= len(c.post)
+
+
 def classify(r):
     c = r.c
     n_post = len(c.post)
@@ -405,6 +426,8 @@ def classify(r):
         name = p.get("property", "")
         desc = p.get("description", "")
         st = p.get("status", "")
+        if desc.startswith("pointer relation:"):
+            continue  # comparing a computed out-of-object pointer is not an access (documented assumption)
         d = dict(name=name, desc=desc, status=st)
         m = re.search(r"\.postcondition\.(\d+)$", name)
         if m and name.startswith(c.fn.mangled + "."):
